@@ -62,6 +62,11 @@ CLAIMED = {
         "Decides that epilogue pops mirror prologue pushes in both the 64-bit and the 32-bit variant, that the SysV AMD64 / i386 callee-saved sets are preserved and ESP, the executor and the scratch register are never allocatable, that restore_mxcsr reloads the slot in which set_mxcsr kept the caller's value (mask 0x8040), that set is always followed by restore before the epilogue, emms is emitted on every path, vzeroupper precedes ret for AVX, and the vector save area is released by the amount it was reserved. Spills under register pressure and the direction flag are not decided.",
         "Trusted: SysV/i386 callee-saved sets; the emission helpers interpreted in D3 (stmxcsr/ldmxcsr/mov/or) are the only ones the MXCSR sequences use (anything else is exit 2).",
         "DESIGN.md §4 C10"),
+    "C02": (
+        "non-interference check over all emulate_* functions (occurrences of offset/n/i restricted to the loop header and to canonical or documented subscript forms), table/function agreement on element sizes and operand slots, dominance of accumulator zeroing, prefix handling in the dispatcher",
+        "Decides sentence 2 of the property for the reference emulator: the result for element i cannot depend on its position, on n or on an x2/x4 prefix other than through the documented source indices of the up-sampling/offset/resampling loads; plus the table-to-emulator agreement (row name, element sizes, operand slots, declaration) for all 197 opcodes and the zeroing of accumulators. What each opcode computes from its operands (wrap-around, saturation, rounding, byte order) is not decided.",
+        "Trusted: clang AST; documented index forms frozen from doc/opcode_table.xml (shift constants not checked).",
+        "DESIGN.md §4 C02"),
 }
 
 NOT_YET = "check under construction in this round; not claimed until its rules are exact on the current tree"
